@@ -50,10 +50,10 @@ Endian Serializer::setEndian(Endian e)
 
 bool Serializer::extendSize(size_t need_size)
 {
-    size_t whole_size = pos_ + need_size;
     if (type_ == kRaw)
-        return whole_size <= size_;
+        return need_size <= (size_ - pos_);  //! 不用 pos_ + need_size，防止整数溢出
     else {
+        size_t whole_size = pos_ + need_size;
         p_block_->resize(whole_size);
         start_ = p_block_->data();
         return true;
@@ -194,7 +194,8 @@ Endian Deserializer::setEndian(Endian e)
 
 bool Deserializer::checkSize(size_t need_size) const
 {
-    return (pos_ + need_size) <= size_;
+    //! pos_ 始终 <= size_。不用 pos_ + need_size，防止整数溢出
+    return need_size <= (size_ - pos_);
 }
 
 bool Deserializer::set_pos(size_t pos) {
